@@ -19,7 +19,10 @@ def project_inst_ms(inst, schema):
 
     def pv(v):
         if isinstance(v, datetime.datetime) and v.utcoffset() is not None:
-            u = v.astimezone(datetime.timezone.utc) + datetime.timedelta(microseconds=500)
+            try:
+                u = v.astimezone(datetime.timezone.utc) + datetime.timedelta(microseconds=500)
+            except OverflowError:
+                return tc.project(v)          # the very end of year 9999: no rounding possible
             u = u.replace(microsecond=u.microsecond // 1000 * 1000)
             return tc.project(u)
         if isinstance(v, datetime.time) and v.utcoffset() is not None:
